@@ -56,7 +56,7 @@ def run(ctx):
             impl.extend(["ok"] * (len(ops) - len(impl)))
             # the unaltered block is valid
             try:
-                base.add_block(Block.deserialize(raw), now)
+                with_original = base.add_block(Block.deserialize(raw), now)
             except Exception as e:
                 res.notes.append("generator produced an invalid block: %r" % e)
                 continue
@@ -67,6 +67,15 @@ def run(ctx):
                 m[i // 8] ^= 1 << (i % 8)
                 cls.append(classify(base, bytes(m), now, blk.hash(), raw, res, info))
             tcls = [classify(base, raw[:n], now, blk.hash(), raw, res, info) for n in range(len(raw))]
+            # the same alterations offered to a node that already stores the original (an alteration outside the header
+            # has the original's id): none may be accepted there either
+            for i, c in enumerate(cls):
+                if c != "u":
+                    m = bytearray(raw)
+                    m[i // 8] ^= 1 << (i % 8)
+                    classify(with_original, bytes(m), now, blk.hash(), raw, res,
+                             {**info, "offered_to": "the chain that already contains the original"})
+                    res.count("alterations_offered_after_the_original")
             acc = [str(i) for i, c in enumerate(cls) if c == "a"]
             tacc = [str(i) for i, c in enumerate(tcls) if c != "u"]
             for n in tacc[:3]:
@@ -91,7 +100,8 @@ def run(ctx):
     res.exhaustive = True
     res.rule = ("fresh fully valid blocks (0-3 signed spends) on random parents of random forked trees; for each block every "
                 "single-bit flip and every truncation point of its encoding (exhaustive per block), decoded with "
-                "Block.deserialize and offered to add_block against the same chain; the model classifies the same "
+                "Block.deserialize and offered to add_block against the same chain and (the decodable ones) against the chain that "
+                "already contains the original; the model classifies the same "
                 "alterations (undecodable / rejected / accepted) and the classification strings are compared by digest. "
                 "evaluations = alterations; distinct non-trivial = distinct blocks")
     return res
